@@ -583,14 +583,23 @@ def sym_sum(ctx, summand, lo, hi, name='Sum'):
         re = sym_sum(ctx, lambda t: V.real_part(summand(t)), lo, hi, name + '_re')
         im = sym_sum(ctx, lambda t: V.imag_part(summand(t)), lo, hi, name + '_im')
         return Cx(re, im)
-    P = ctx.fresh_fun(name, z3.IntSort(), z3.RealSort() if real else z3.IntSort())
-    t = z3.Int(f't!{next(ctx.fresh_ctr)}')
     lo_z = V.zint(lo)
-    term = summand(t)
-    term = V.zreal(term) if real else V.zint(term)
-    ctx.assume(P(lo_z) == 0)
-    ctx.hyps.append(z3.ForAll([t], z3.Implies(t >= lo_z, P(t + 1) == P(t) + term), patterns=[P(t + 1)]))
-    Sigma.terms.append((P, summand, lo, hi))
+    # canonical Sigma-terms: the same summand (syntactically, at a canonical bound variable) and lower bound give the same partial-sum function
+    canon = z3.Int('t!canon')
+    cterm = summand(canon)
+    key = ((V.zreal(cterm) if real else V.zint(cterm)).sexpr(), lo_z.sexpr())
+    cache = ctx.__dict__.setdefault('sigma_cache', {})
+    if key in cache:
+        P = cache[key]
+    else:
+        P = ctx.fresh_fun(name, z3.IntSort(), z3.RealSort() if real else z3.IntSort())
+        cache[key] = P
+        t = z3.Int(f't!{next(ctx.fresh_ctr)}')
+        term = summand(t)
+        term = V.zreal(term) if real else V.zint(term)
+        ctx.assume(P(lo_z) == 0)
+        ctx.hyps.append(z3.ForAll([t], z3.Implies(t >= lo_z, P(t + 1) == P(t) + term), patterns=[P(t + 1)]))
+        ctx.sigma_terms = getattr(ctx, 'sigma_terms', []) + [(P, summand, lo)]
     res = P(V.zint(hi))
     return res
 
@@ -775,6 +784,7 @@ def np_argsort(it, x, **k):
                                                       V.zbool(V.cmp('<=', xl.at(perm(k1)), xl.at(perm(k2)))))))
         r = LArr((n,), lambda i: perm(V.zint(i[0])), 'int', inv=lambda v: rank(V.zint(v)))
     r.meta['argsort'] = (perm, rank, xl)
+    ctx.ghost_log.append(('argsort', perm, rank, xl))
     return r
 
 
@@ -1321,3 +1331,15 @@ def la_norm(it, a, ord=None, **k):
         s = sym_sum(it.ctx, lambda t: sq(snap.at(t)), 0, a.shape[0], 'NormSq')
         it.ctx.assume(V.cmp('>=', s, 0))
     return V.sqrt(s)
+
+
+@np_fn('softmax', ns='spsp')
+def sp_softmax(it, z, axis=None):
+    """scipy.special.softmax(z)_i = exp(z_i) / sum_t exp(z_t)   (1-D)"""
+    z = z if is_arr(z) else to_carr(z)
+    if z.ndim != 1:
+        raise Unsupported('softmax nd')
+    e = elementwise(it.ctx, V.exp, z, kind='real')
+    tot = np_sum(it, e)
+    it.ctx.assume(V.cmp('>', tot, 0)) if is_sym(tot) else None
+    return elementwise(it.ctx, lambda v: V.div(v, tot), e, kind='real')
